@@ -49,6 +49,18 @@ def _jsonable(x):
     return repr(x)
 
 
+def _say(*a):
+    """print that survives a reader which has gone away (e.g. `./check ... | head`)"""
+    try:
+        print(*a)
+        sys.stdout.flush()
+    except BrokenPipeError:
+        try:
+            sys.stdout = open(os.devnull, "w")
+        except OSError:
+            pass
+
+
 def _work(item):
     idx, case = item
     t0 = time.time()
@@ -255,18 +267,17 @@ def _run_check(prop, tier, seed, replay, workers, t_start, scratch):
         json.dump(ev, f, indent=1)
     os.replace(tmp, os.path.join(EVIDENCE_DIR, f"{prop}.json"))
 
-    print(
+    _say(
         f"[{prop} {tier}] cases={len(cases)} done={len(results)} evaluations={evals} "
         f"distinct_nontrivial={len(keys)} violations={len(unknown)} known={sum(c for _, c, _ in known.values())} "
         f"capped={capped} wall={wall:.1f}s"
     )
     for k, val in sorted(tags.items()):
-        print(f"    {k}: {val}")
+        _say(f"    {k}: {val}")
     for ln in lines:
-        print(ln)
+        _say(ln)
     if harness_errors:
-        print(f"HARNESS-ERROR in {len(harness_errors)} case(s); first:\n{harness_errors[0]['harness_error']}")
-        print(json.dumps(_jsonable(cases[harness_errors[0]['idx']]))[:2000])
+        _say(f"HARNESS-ERROR in {len(harness_errors)} case(s); first:\n{harness_errors[0]['harness_error']}")
+        _say(json.dumps(_jsonable(cases[harness_errors[0]['idx']]))[:2000])
         return 2
-    sys.stdout.flush()
     return 1 if unknown else 0
